@@ -592,3 +592,14 @@ def run(index, rep, tier):
                     rep.check(not shared, "R12.12", hook.qualname, "the copy is given the receiver's own `%s`" % (v.attr if shared else ""), fn_where(hook, a), "%s: `%s`" % (hook.qualname, norm_stmt(a)[:60]),
                               "%s assigns `%s`: `%s` is a container of the receiver, so the 'copy' and the source are two views of one %s - appending a tree to the copy appends it to the source, and growing the copy of an empty list fills the source" % (hook.qualname, norm_stmt(a)[:60], v.attr if shared else "", "container"))
         rep.floor("R12.12", "attribute assignments to the copy in __copy__ hooks", 1, n12)
+
+    # ---- R12.13 every annotation is looked at when the set changes owner
+    with rep.section("R12.13"):
+        rep.rule("R12.13", "every annotation is looked at when the set changes owner: the loop of Annotable._set_annotations that re-targets attribute-bound annotations runs over the WHOLE set - it contains no `break` and no `return`; leaving at the first ordinary annotation keeps the bound ones after it on the temporary object of the copy constructor (R12.11), and a copy of that copy fails")
+        sa_ = index.function("dendropy.datamodel.basemodel.Annotable._set_annotations")
+        loops13 = [l for l in walk_no_nested(sa_.node) if isinstance(l, ast.For)]
+        if not loops13:
+            raise AnalysisError("R12.13: the re-targeting loop of Annotable._set_annotations not recognised")
+        early = [x for l in loops13 for x in ast.walk(l) if isinstance(x, (ast.Break, ast.Return))]
+        rep.check(not early, "R12.13", sa_.qualname, "the re-targeting loop can stop early", fn_where(sa_, early[0] if early else None), "_set_annotations examines every annotation of the set",
+                  "Annotable._set_annotations leaves its re-targeting loop early (`%s`): annotations after that point keep the old owner - with an ordinary annotation before a bound one, `Tree(tree)` returns a copy whose bound annotation still points at the constructor's temporary object, and deepcopy / clone of that copy raises AttributeError" % ("break" if early and isinstance(early[0], ast.Break) else "return"))
